@@ -27,13 +27,16 @@ Example C03_separators_required :
 Proof. vm_compute. repeat split; eexists; reflexivity. Qed.
 
 (** Soundness of the reference parser: an accepted expression lexes to the
-    flattening of a syntax tree of the grammar (one constructor per production of
-    the JMESPath grammar, Spec/Grammar.v) followed by the end-of-input token, and
+    flattening of a well-formed syntax tree of the grammar (one constructor per
+    production of the JMESPath grammar, Spec/Grammar.v; well-formed: what follows
+    a dot is an identifier, quoted identifier, call, [*], multi-select hash or
+    list, and only index, slice, wildcard and filter brackets continue a
+    projection) followed by the end-of-input token, and
     the returned tree is the abstract tree of that syntax tree.  So the
     reference parser — the sentence oracle of this property — accepts nothing
     outside the language and never invents a tree. *)
 Theorem C03_reference_parser_sound : forall s t, ref_parse s = Ok t ->
-  exists tokens c, tokenize s = Ok tokens /\ map snd tokens = flat c ++ [TEof] /\ erase c = t.
+  exists tokens c, tokenize s = Ok tokens /\ map snd tokens = flat c ++ [TEof] /\ erase c = t /\ wf c.
 Proof. exact ref_parse_sound. Qed.
 Print Assumptions C03_reference_parser_sound.
 
